@@ -679,6 +679,26 @@ class View:
                     if new is not None:
                         out += new
                         continue
+                # for c, item in enumerate(_gen(..), start=s): a running counter around the inlined generator
+                it = st.iter
+                if isinstance(it.func, ast.Name) and it.func.id == "enumerate" and it.args and isinstance(it.args[0], ast.Call) \
+                        and isinstance(st.target, ast.Tuple) and len(st.target.elts) == 2 and isinstance(st.target.elts[0], ast.Name):
+                    r = self.res.resolve(it.args[0])
+                    cname = st.target.elts[0].id
+                    has_cont = any(isinstance(x, ast.Continue) and _owner_loop(x, st.body) is None for x in au.stmts(st.body))
+                    if r and not has_cont and cname not in _assigned_in(st.body):
+                        start = it.args[1] if len(it.args) > 1 else next((k.value for k in it.keywords if k.arg == "start"), _const(0))
+                        bump = ast.AugAssign(target=ast.Name(id=cname, ctx=ast.Store()), op=ast.Add(), value=_const(1))
+                        inner = ast.For(target=st.target.elts[1], iter=it.args[0], body=list(st.body) + [bump], orelse=[])
+                        ast.copy_location(inner, st)
+                        ast.copy_location(bump, st)
+                        new = self._gen(inner, r[0], r[1])
+                        if new is not None:
+                            init = ast.copy_location(ast.Assign(targets=[ast.Name(id=cname, ctx=ast.Store())], value=sym.clone(start)), st)
+                            for x in [init, bump]:
+                                ast.fix_missing_locations(x)
+                            out += [init] + new
+                            continue
             out.append(st)
         return out
 
